@@ -299,10 +299,11 @@ def toCanonicalUri (n : List Bytes) : Except PyErr Str := do
 def encode (n : List Bytes) : Bytes :=
   writeTlNum TYPE_NAME ++ writeTlNum n.flatten.length ++ n.flatten
 
-/-- the `while length > 0` loop of `Name.decode`; `length` only matters through `> 0`, so the
-    (possibly negative) Python value is kept as a truncated natural number.  A component that
-    overruns the declared Length is accepted, and its slice is cut at the end of the buffer,
-    exactly as the code does (finding F3 of DESIGN.md, which belongs to property C07). -/
+/-- the `while length > 0` loop of `Name.decode`: `length` is the number of bytes of the declared Length not yet
+    consumed.  A component whose extent (`off' - off`: its Type, Length and declared Value) is larger than what is left
+    of the declared Length raises `IndexError('name component exceeds the Length of the Name')` before anything is
+    appended - the test sits where the source has it, after the new offset is computed - so `length` never goes
+    negative and the natural-number subtraction below is exact. -/
 def decodeLoop (buf : Bytes) : Nat → Nat → Nat → List Bytes → Except PyErr (List Bytes × Nat)
   | 0, _, _, _ => .error .fuel
   | fuel + 1, off, length, acc =>
@@ -311,7 +312,8 @@ def decodeLoop (buf : Bytes) : Nat → Nat → Nat → List Bytes → Except PyE
       let (_, st) ← parseTlNum buf off
       let (lc, sl) ← parseTlNum buf (off + st)
       let off' := off + st + sl + lc
-      decodeLoop buf fuel off' (length - (off' - off)) (acc ++ [pySlice buf off off'])
+      if off' - off > length then .error .indexError
+      else decodeLoop buf fuel off' (length - (off' - off)) (acc ++ [pySlice buf off off'])
 
 /-- `Name.decode(buf)` → (components, bytes consumed) -/
 def decode (buf : Bytes) : Except PyErr (List Bytes × Nat) := do
